@@ -134,7 +134,46 @@ func opPatchScenario(seed uint64, target string, val, doc string, item int) *Sce
 	return sc
 }
 
-// RunEnumWorker executes this worker's share of the three enumerations.
+// (d) pointer algebra: every ordered pair of single operations whose path/from come from a
+// small set of pointers built around the empty reference token ("", "/", "//", "/a/", "//a": the
+// whole document versus the member named ""), on documents that have such members.
+var algebraPointers = []string{"", "/", "//", "/a", "/a/", "//a", "/0", "/-"}
+var algebraDocs = []string{`{"":1,"a":{"":2}}`, `[[1],{"":0}]`, `{"":{"":{}},"a":[{}]}`, `{}`}
+
+func algebraOps() []string {
+	var ops []string
+	for _, p := range algebraPointers {
+		q := fmt.Sprintf("%q", p)
+		ops = append(ops, `{"op":"add","path":`+q+`,"value":{"":1}}`, `{"op":"remove","path":`+q+`}`, `{"op":"replace","path":`+q+`,"value":{"":1}}`, `{"op":"test","path":`+q+`,"value":1}`)
+		for _, f := range algebraPointers {
+			fq := fmt.Sprintf("%q", f)
+			ops = append(ops, `{"op":"move","from":`+fq+`,"path":`+q+`}`, `{"op":"copy","from":`+fq+`,"path":`+q+`}`)
+		}
+	}
+	return ops
+}
+
+func patchListScenario(seed uint64, target, doc string, patches []string, item int) *Scenario {
+	sc := &Scenario{Format: 1, Property: "C04", Engine: "enum", Target: target, Seed: seed, NSlots: len(patches)}
+	sc.Cfg = Cfg{Pool: simrt.PoolLIFO, MapOrder: item % simrt.NumMapPolicies, Warm: true}
+	sc.Bufs = []Bytes{Bytes(doc)}
+	sc.Tasks = [][]Call{nil}
+	id := uint32(0)
+	for i, p := range patches {
+		sc.Bufs = append(sc.Bufs, Bytes(p))
+		id++
+		sc.Tasks[0] = append(sc.Tasks[0], Call{ID: id, Fn: FnDecodePatch, Name: "DecodePatch", A: 1 + i, Slot: i})
+		id++
+		fn := FnApplyWithOptions
+		if target == "legacy" {
+			fn = FnApply
+		}
+		sc.Tasks[0] = append(sc.Tasks[0], Call{ID: id, Fn: fn, Name: FnNames[fn], A: 0, Slot: i, Opts: optsFromBits(item + i)})
+	}
+	return sc
+}
+
+// RunEnumWorker executes this worker's share of the enumerations.
 func RunEnumWorker(p Params) *Summary {
 	start := time.Now()
 	ws := newWorkerState(p)
@@ -231,12 +270,35 @@ func RunEnumWorker(p Params) *Summary {
 			}
 		}
 	}
+	// (d) pointer algebra: all ordered pairs of operations, 16 two-operation patches per scenario
+	ops := algebraOps()
+	for _, target := range targets {
+		for _, d := range algebraDocs {
+			var batch []string
+			flush := func() {
+				if len(batch) > 0 && mine() {
+					exec(patchListScenario(seed, target, d, batch, item), "pointer-algebra-pair")
+				}
+				batch = nil
+			}
+			for _, a := range ops {
+				for _, b := range ops {
+					batch = append(batch, "["+a+","+b+"]")
+					if len(batch) == 16 {
+						flush()
+					}
+				}
+			}
+			flush()
+		}
+	}
 	if complete {
 		ws.sum.Exhaustive = []string{
 			fmt.Sprintf("torn input: every proper prefix of %d seeded (document, patch, merge patch) triples x every entry point x {v5, legacy}", K),
 			"single-byte substitution from {}[],:\"\\0-n NUL 0xFF at every offset of the same texts x every entry point x {v5, legacy}",
 			fmt.Sprintf("every ordered pair of %d small values x two-argument functions and DecodePatch/Apply x {v5, legacy}", len(smallValues)),
 			"10 operation templates x every small value x 6 documents x {v5, legacy}",
+			fmt.Sprintf("pointer algebra: every ordered pair of %d single operations (add/remove/replace/test/move/copy with path and from drawn from %d pointers around the empty reference token) x %d documents x {v5, legacy}", len(ops), len(algebraPointers), len(algebraDocs)),
 		}
 	} else {
 		ws.sum.Probes["enumeration_cut_short_by_deadline"]++
